@@ -25,7 +25,7 @@ Inductive wpc :=
 | WSpawned                    (* go req.process() (or the synchronous call for Tversion) *)
 | WProc                       (* reqWork set; Process() dispatching *)
 | WInOp                       (* inside the implementation's operation *)
-| WF2 (target : nat)          (* flush: linked on target's chain; about to read target's status *)
+| WF2 (target : nat)          (* flush: linked on target's chain (target not a Tflush); about to read target's status *)
 | WF3 (target : nat) (worked : bool)
 | WInFlushOp (target : nat)   (* inside FlushOp.Flush(target) *)
 | WTail                       (* after Process(): clear reqWork, set reqSaved *)
@@ -163,7 +163,8 @@ Inductive label :=
 | LOpCall (r : nat)               (* Process(): the request is handed to the implementation *)
 | LOpReturn (r : nat)             (* the implementation's operation returns *)
 | LAnswer (r : nat) (v : N)       (* the implementation calls RespondRx / RespondError on r *)
-| LF1 (r : nat)                   (* flush: pack Rflush, look up oldtag, chain under the connection lock *)
+| LF1 (r : nat)                   (* flush: pack Rflush, look up oldtag, chain under the connection lock;
+                                     return at once if the request found is itself a Tflush *)
 | LF2 (r : nat)                   (* flush: read target status, maybe set reqFlush, under the target's lock *)
 | LF3 (r : nat)                   (* flush: target.Respond() or FlushOp.Flush(target) or nothing *)
 | LFlushOpReturn (r : nat)
@@ -239,7 +240,9 @@ Definition step (c : cfg) (s : st) (l : label) : option st :=
           match getq s t with
           | Some qt =>
             (* req.flushnext = r.flushreq; r.flushreq = req *)
-            let s1 := setq s r (with_pc (with_target (with_flushnext q1 (q_flushreq qt)) t) (WF2 t)) in
+            (* a target that is itself a Tflush is not cancelled: return right after chaining *)
+            let pc := match q_kind qt with KFlush _ => WTail | _ => WF2 t end in
+            let s1 := setq s r (with_pc (with_target (with_flushnext q1 (q_flushreq qt)) t) pc) in
             match getq s1 t with
             | Some qt1 => Some (setq s1 t (with_links qt1 (Some r) (q_prev qt1) (q_next qt1)))
             | None => None end
